@@ -231,8 +231,9 @@ def check_sv(case, acc):
 
     # ---- initialising circuit -----------------------------------------------------------------------------------------------
     acc.ev()
+    sv0 = None
     try:
-        sv = StateVector(v, order=order)
+        sv = sv0 = StateVector(v, order=order)
         kw = {} if setn is None else {"set_n_qubits": setn}
         c, ph = sv.initializing_circuit(return_phase=True, **kw)
         c_only = sv.initializing_circuit(**kw)
@@ -284,6 +285,17 @@ def check_sv(case, acc):
                 acc.ev()
                 if u.width != n:
                     bad("uncomputing_circuit", "set_n_qubits-ignored", {"width": u.width, "n_qubits_attr": u._qubits_simulated})
+    if u is not None and sv0 is not None and c is not None:
+        # history: the object that already produced its initialising circuits is asked for the uncomputing circuit, and for the
+        # initialising circuit once more: same answers as the fresh objects gave
+        acc.ev()
+        try:
+            u2, phu2 = sv0.uncomputing_circuit(return_phase=True, **kw)
+            c3, ph3 = sv0.initializing_circuit(return_phase=True, **kw)
+            if gl(u2) != gl(u) or abs(phu2 - phu) > 1e-12 or gl(c3) != gl(c) or abs(ph3 - ph) > 1e-12:
+                bad("history", "answer-depends-on-earlier-calls-on-the-same-object", None)
+        except Exception as e:
+            bad("history", "exception", {"err": repr(e)[:300]})
     if not np.array_equal(v, v_in):
         bad("__init__", "input-mutated", None)
     if nnz >= 2:
@@ -328,6 +340,8 @@ FAMILIES = {
 SHAPES = {
     "P1": (1, ["1"], True), "RZ1": (1, ["0", "1"], True), "XPX": (1, ["0"], True), "ZZc": (2, ["00", "01"], True),
     "BELL": (2, ["phi+"], True), "SWP": (2, ["11"], False), "TOF": (2, ["10"], True), "CRZ2": (2, ["10"], True),
+    # circuits that leave a qubit below their width idle (the state register still spans 0..width-1)
+    "P1hi": (2, ["01", "11"], True), "RZhi": (2, ["00", "11"], True),
 }
 TCONV = {"neg2pi": -2 * PI, "pos2pi": 2 * PI, "unit": None, "gen": "gen"}
 
@@ -380,6 +394,10 @@ def circuit_shape(shape, state, phi_t, seed):
         return [G("CNOT", [1], [0]), G("PHASE", [1], None, two, True), G("CNOT", [1], [0])]
     if shape == "CRZ2":
         return [G("CRZ", [1], [0], -four, True)]
+    if shape == "P1hi":
+        return [G("PHASE", [1], None, two, True)]
+    if shape == "RZhi":
+        return [G("RZ", [1], None, (-four if state == "00" else four), True)]
     raise KeyError(shape)
 
 
